@@ -67,7 +67,8 @@ CHECKS = {
        'result, glass-box post-state, two probe commands and "refused => store and state unchanged" agree with the RFC 3501 '
        'section 3 automaton plus a set-of-names model. Command-word letter case is symbolic (one bit per letter, all '
        'spellings per path) and the UID base is a symbolic integer; the solver\'s role is small here and the claim over all '
-       'sequences rests on one-step induction over the abstract state; thorough adds all sequences of two commands.',
+       'sequences rests on one-step induction over the abstract state; thorough adds all sequences of two commands. Also: CLOSE after the '
+       'selected mailbox was deleted / renamed behind the connection\'s back answers OK and deselects.',
   note=TRUST + 'Control-dominated property: the level is an exhaustive finite exploration with solver-checked symbolic '
        'parts. TLS handshake stubbed; local peer. Outside: long random sequences, deleting the selected mailbox.',
   technique='symbolic execution of the real connection loop with z3 over an exhaustive state x command table (inductive step)'),
